@@ -8,8 +8,8 @@ use crate::util::hexs;
 use markdown_it::Node;
 use markdown_it::parser::inline::Text;
 
-const INLINE: &[&str] = &["Text", "TextSpecial", "Softbreak", "Hardbreak", "CodeInline", "Em", "Strong", "Strikethrough", "Link", "Image", "Autolink", "HtmlInline"];
-const INLINE_PARENTS: &[&str] = &["Paragraph", "ATXHeading", "SetextHeader", "ListItem", "Em", "Strong", "Strikethrough", "Link", "Image", "CodeInline", "Autolink"];
+const INLINE: &[&str] = &["Text", "TextSpecial", "Softbreak", "Hardbreak", "CodeInline", "Em", "Strong", "Strikethrough", "Link", "Image", "Autolink", "HtmlInline", "Gen"];
+const INLINE_PARENTS: &[&str] = &["Paragraph", "ATXHeading", "SetextHeader", "ListItem", "Em", "Strong", "Strikethrough", "Link", "Image", "CodeInline", "Autolink", "Gen"];
 const LEAF: &[&str] = &["Text", "TextSpecial", "Softbreak", "Hardbreak", "ThematicBreak", "CodeBlock", "CodeFence", "HtmlBlock", "HtmlInline"];
 const PLACEHOLDER: &[&str] = &["InlineRoot", "EmphMarker", "Empty"];
 const LISTS: &[&str] = &["BulletList", "OrderedList"];
